@@ -225,6 +225,43 @@ def steps(rep):
         rep.add(f'C19.AnnotatedTypeHint._is_subhint_branch.post.sound.path{i}', r.status, time=r.time, backend=r.backend, reason=r.reason,
                 where='True => every object satisfying the metahint and the validators of self satisfies the branch (its metahint and equal validators, or the branch itself if it is not Annotated)')
     if not outs: rep.error('C19.AnnotatedTypeHint: no path')
+    # ---- the contract every wrapper's `_is_args_ignorable` owes its callers (the branch lemmas above and below USE it as a hypothesis):
+    #      True  =>  the hint means no more than isinstance(x, origin): every instance of the origin class satisfies it
+    IGN_ALL = z3.Function('child_is_ignorable_contract', M.Obj, z3.BoolSort())
+    ch_, y2_ = z3.Consts('ign_child ign_y', M.Obj)
+    ign_contract = z3.ForAll([ch_], z3.Implies(M.truthy(z3.Select(F('is_ignorable'), ch_)), z3.ForAll([y2_], MEAN(ch_, y2_))))     # TypeHint.is_ignorable: contract of the callee (C19 palette checks it against is_bearable)
+    ORIG = z3.Select(F('_origin'), SELF); ARGSW = z3.Select(F('_args_wrapped_tuple'), SELF)
+    MH_ = z3.Select(F('_metahint_wrapper'), SELF); MD_ = z3.Select(F('_metadata'), SELF); LA_ = z3.Select(F('_args'), SELF)
+    SC3 = [z3.Const(f'fixed_child{i}', M.Obj) for i in range(2)]
+    import beartype.door._cls.doorsuper as smod, beartype.door._cls.pep.pep484.doorpep484any as anymod
+    IGN_TARGETS = [
+        ('beartype/door/_cls/doorsuper.py', 'TypeHint._is_args_ignorable', smod,
+         # a subscripted hint over an origin class constrains nothing beyond its children: if every child accepts everything, an instance of the origin satisfies it
+         lambda x: z3.Implies(z3.ForAll([ch_], z3.Implies(M.mem(ARGSW, ch_), z3.ForAll([y2_], MEAN(ch_, y2_)))), z3.BoolVal(True)), 'generic'),
+        ('beartype/door/_cls/pep/pep484/doorpep484class.py', 'ClassTypeHint._is_args_ignorable', cmod, lambda x: z3.BoolVal(True), 'class'),
+        ('beartype/door/_cls/pep/pep484/doorpep484any.py', 'AnyTypeHint._is_args_ignorable', anymod, lambda x: z3.BoolVal(True), 'any'),
+        ('beartype/door/_cls/pep/doorpep593.py', 'AnnotatedTypeHint._is_args_ignorable', amod, lambda x: z3.And(MEAN(MH_, x), VAL(MD_, x)), 'annotated'),
+        ('beartype/door/_cls/pep/doorpep586.py', 'LiteralTypeHint._is_args_ignorable', lmod, lambda x: lit_mean(LA_, x), 'literal'),
+    ]
+    try:
+        import beartype.door._cls.pep.pep484585.doorpep484585tuple as tmod0
+        IGN_TARGETS.append(('beartype/door/_cls/pep/pep484585/doorpep484585tuple.py', 'TupleFixedTypeHint._is_args_ignorable', tmod0,
+                            lambda x: z3.And(M.len_(x) == 2, MEAN(SC3[0], M.item(x, 0)), MEAN(SC3[1], M.item(x, 1))), 'tuple_fixed'))
+    except Exception: pass
+    for rel, qual, qmod, mean_beyond_origin, tag in IGN_TARGETS:
+        try:
+            fobj, node, _ = funcmode.load(rel, qual)
+            ex = Exec(uni, dict(qmod.__dict__), call_model={}, name=qual); ex.fields_mode = True; ex.quantify_allany = True
+            outs = ex.run_function(node, St((), (M.inst(ARGSW, uni.const(tuple)),)), (VObj(SELF),), {}, fobj)
+        except symx.Unsupported as e: rep.error(f'C19.{qual}: unsupported: {e}'); continue
+        pr = discharge.Prover(uni.axioms() + [ign_contract])
+        if not outs: rep.error(f'C19.{qual}: no path'); continue
+        for i, (s_, v) in enumerate(outs):
+            goal = mean_beyond_origin(X)
+            if tag == 'generic': goal = z3.ForAll([ch_], z3.Implies(M.mem(ARGSW, ch_), z3.ForAll([y2_], MEAN(ch_, y2_))))
+            r = pr.prove(list(s_.pc) + [ex.truth(v), M.inst(X, ORIG)], goal)
+            rep.add(f'C19.{qual}.post.true_only_if_origin_suffices.path{i}', r.status, time=r.time, backend=r.backend, reason=r.reason,
+                    where='_is_args_ignorable returns True only if every instance of the origin class satisfies the hint (what ClassTypeHint / tuple / callable / generic / subscripted comparisons assume of an "args-ignorable" branch)')
     # ---- UnionTypeHint._is_subhint: any number of branches on both sides
     import beartype.door._cls.pep.doorpep484604 as umod
     fobj, node, _ = funcmode.load('beartype/door/_cls/pep/doorpep484604.py', 'UnionTypeHint._is_subhint')
